@@ -386,15 +386,25 @@ messageTypeSwitching:
 		m.serverSalt = message.NewSalt
 		verifPoint("salt.adopt", message.NewSalt)
 		err := m.SaveSession()
-		check(err)
+		if err != nil {
+			m.warnError(errors.Wrap(err, "saving session"))
+		}
 
+		// server rejected exactly one message (BadMsgID), so only this request must be sent again with new
+		// salt: other pending requests were accepted by server, they are waiting for their own responses.
+		// entry is deleted, cause repeated request will be registered with new message id.
 		m.mutex.Lock()
-		for _, k := range m.responseChannels.Keys() {
-			v, _ := m.responseChannels.Get(k)
-			verifPoint("salt.notify", int64(k))
-			v <- &errorSessionConfigsChanged{}
+		badMsgID := int(message.BadMsgID)
+		waiter, found := m.responseChannels.Get(badMsgID)
+		if found {
+			m.responseChannels.Delete(badMsgID)
+			m.expectedTypes.Delete(badMsgID)
 		}
 		m.mutex.Unlock()
+		if found && waiter != m.serviceChannel {
+			verifPoint("salt.notify", message.BadMsgID)
+			waiter <- &errorSessionConfigsChanged{}
+		}
 
 	case *objects.NewSessionCreated:
 		m.serverSalt = message.ServerSalt
